@@ -34,6 +34,8 @@ enum PageFault {
     Slow,
     /// The statement was evicted from this node's cache: UNPREPARED.
     Unprepared,
+    /// UNAVAILABLE (see `PagePlan::sick`).
+    Unavailable,
 }
 
 #[derive(Debug, Clone)]
@@ -50,6 +52,14 @@ struct PagePlan {
     /// cursor; fault-free, non-speculative queries only, so that "the page after the
     /// last delivered one" is well defined).
     constant_state: bool,
+    /// One page (>= 1) of the query meets a node that cannot serve it, in one of two ways:
+    /// (page, 0): the node that served the previous page - to which the pager sends the
+    /// request first - answers UNAVAILABLE, every other node serves it (the Default
+    /// policy's one retry on the NEXT target saves the stream);
+    /// (page, 1): every node answers UNAVAILABLE (1 of 2 required replicas alive) unless
+    /// the request comes at consistency ONE (the DowngradingConsistency policy's retry at
+    /// the consistency it chose saves the stream).
+    sick: Option<(usize, u8)>,
 }
 
 #[derive(Debug, Clone)]
@@ -69,6 +79,8 @@ struct C07Script {
     reqs: BTreeMap<u64, Vec<PageReq>>,
     /// Constant-handle plans: pages delivered so far per query.
     delivered: BTreeMap<u64, usize>,
+    /// Node that delivered the latest page of each query.
+    coordinator: BTreeMap<u64, usize>,
 }
 
 fn row(m: u64, i: usize) -> Vec<Cell> {
@@ -126,6 +138,11 @@ impl Script for C07Script {
         } else {
             PageFault::None
         };
+        let fault = match (plan.sick, page) {
+            (Some((sp, 0)), Some(j)) if sp == j && self.coordinator.get(&m) == Some(&rq.node) => PageFault::Unavailable,
+            (Some((sp, 1)), Some(j)) if sp == j && params.consistency != 0x0001 => PageFault::Unavailable,
+            _ => fault,
+        };
         self.reqs.entry(m).or_default().push(PageReq {
             t: w.now(),
             node: rq.node,
@@ -182,6 +199,13 @@ impl Script for C07Script {
                 return Reply::Error { code, msg: "fatal".into(), extra: vec![], delay };
             }
             PageFault::Rst => return Reply::Close { rst: true, delay },
+            PageFault::Unavailable => {
+                let mut x = crate::wire::W::new();
+                x.u16(params.consistency).i32(2).i32(1);
+                w.fault(Fault::SrvError);
+                w.probe("page_request_answered_unavailable");
+                return Reply::Error { code: err::UNAVAILABLE, msg: "unavailable".into(), extra: x.buf, delay };
+            }
             PageFault::Unprepared => {
                 if let Request::Execute { id, .. } = req {
                     // Evicted: the node forgets the statement and says so.
@@ -204,6 +228,7 @@ impl Script for C07Script {
         if plan.constant_state {
             self.delivered.insert(m, j + 1);
         }
+        self.coordinator.insert(m, rq.node);
         let prepared = matches!(req, Request::Execute { .. });
         let body = wire::body_rows(
             &cols,
@@ -348,6 +373,7 @@ fn draw_page_plan(slow_allowed: bool) -> PagePlan {
         total_rows,
         sizes,
         states,
+        sick: None,
         fault_permille: [0, 0, 100, 300][tape::choose("c07:fault_rate", 4) as usize],
         fatal_allowed: tape::chance("c07:fatal_allowed", 1, 2),
         slow_allowed,
@@ -362,8 +388,12 @@ async fn main(plan: Plan) -> Outcome {
         w.script = Some(Box::new(C07Script::default()));
     }
     let default_retry = !tape::chance("c07:fallthrough", 1, 4);
+    // 1 in 6 runs: the DowngradingConsistency policy (a retry may carry another
+    // consistency than the statement's).
+    let downgrading = tape::chance("c07:downgrading", 1, 6);
+    let default_retry = default_retry && !downgrading;
     // 1 in 4 runs: speculative execution of the (idempotent) page requests.
-    let speculative: Option<(usize, u64)> = if tape::chance("c07:speculative", 1, 4) {
+    let speculative: Option<(usize, u64)> = if !downgrading && tape::chance("c07:speculative", 1, 4) {
         Some((tape::range("c07:spec_max", 1, 2) as usize, [20, 50, 200][tape::choose("c07:spec_interval", 3) as usize]))
     } else {
         None
@@ -371,7 +401,9 @@ async fn main(plan: Plan) -> Outcome {
     let cfg = SessionCfg {
         contact_nodes: vec![0],
         pool: PoolSize::PerHost(NonZeroUsize::new(1).unwrap()),
-        retry: Some(if default_retry {
+        retry: Some(if downgrading {
+            Arc::new(scylla::policies::retry::DowngradingConsistencyRetryPolicy::new())
+        } else if default_retry {
             Arc::new(DefaultRetryPolicy::new())
         } else {
             Arc::new(FallthroughRetryPolicy)
@@ -441,6 +473,15 @@ async fn main(plan: Plan) -> Outcome {
                 *s = s0.clone();
             }
             out.count("constant_paging_state_queries", 1);
+        }
+        // A page that meets a node which cannot serve it, in a way the retry policy's
+        // decision overcomes (no other faults, no client-side timeout in such a query).
+        let mut req_timeout = req_timeout;
+        if speculative.is_none() && !pp.constant_state && pp.sizes.len() >= 2 && (downgrading || (default_retry && plan.nodes >= 2)) && tape::chance("c07:sick", 1, 5) {
+            pp.sick = Some((1 + tape::choose("c07:sick_page", pp.sizes.len() as u64 - 1) as usize, downgrading as u8));
+            pp.fault_permille = 0;
+            req_timeout = None;
+            out.count("queries_with_a_sick_page", 1);
         }
         {
             let mut w = world::world();
@@ -658,6 +699,18 @@ async fn main(plan: Plan) -> Outcome {
                 }
             } else {
                 out.violation("c07.spurious_error", format!("stream failed although the server failed no page: {ctx}"));
+            }
+            // The one failure of this query was one the policy's decision overcomes.
+            match pp.sick {
+                Some((_, 0)) => out.violation(
+                    "c07.gave_up_with_targets_left",
+                    format!("the stream failed although only the previous page's coordinator answered UNAVAILABLE and the policy's retry goes to the next target, which serves the page: {ctx}"),
+                ),
+                Some((_, _)) => out.violation(
+                    "c07.retry_not_as_decided",
+                    format!("the stream failed although the nodes serve the page at the consistency the DowngradingConsistency policy chooses for its retry: {ctx}"),
+                ),
+                None => {}
             }
             // "Transient failures that the retry policy retries": with the default policy an
             // idempotent page request that meets Overloaded / IsBootstrapping / ServerError is
